@@ -35,13 +35,31 @@
 //                         per thread), with omp_set_max_active_levels(levels): "R pB<i>", "R pemb<i>".  Exceptions
 //                         are caught per data set ("P serr<i> ..." / "P perr<i> ...").  "P team <observed team
 //                         size> ..." (OMP_THREAD_LIMIT may cut the team).
+//   RNG cont cb meth solver seed n d k m f <n ids> <payload>
+//                         WAVE 4: the same requests on the sequence of samples a RANGE denotes.  The samples are ids into a
+//                         table of m samples (payload: f = 0: m*m callback table; f > 0: f x m feature matrix, row major);
+//                         the range [begin,end) denotes ids[0..n-1] (ids may repeat, need not be sorted, m may exceed n:
+//                         the other samples are decoys).  cont = vector | vectormid (sub-range of a longer vector) |
+//                         deque (the whole std::deque) | dequemid (sub-range of a longer std::deque placed across a block
+//                         boundary) | strided (every third entry of a buffer) | reversed (every second entry, backwards);
+//                         everything the range does not denote is filled with decoy ids.  cb = table (hand-written
+//                         callbacks) | precomputed (tapkee::precomputed_{kernel,distance}_callback) | eigen
+//                         (tapkee::eigen_{kernel,distance}_callback over the feature matrix).  meth = dm | km (matrix
+//                         stage: "R d2" + "R mds" / "R kpca") | mds | kpca | isomap ("R B" (+ "R geo2"), "R emb" through
+//                         tapkee::with(...).embedRange(begin, end); randomized: "R omega").  Only the (container,
+//                         callback) pairs listed in rng_dispatch are instantiated; others answer "X unsupported".
 //   solver = default: the eigen_method keyword is left unset; d < 0: the target_dimension keyword is left unset.
 // Numbers are decimal or hex-float on input, hex-float on output.
 // There is exactly ONE embedUsing call site (one instantiation of all methods) to keep the
 // build short.
 #include "spectral_common.hpp"
 
+#include <deque>
+#include <iterator>
 #include <numeric>
+
+#include <tapkee/callbacks/eigen_callbacks.hpp>
+#include <tapkee/callbacks/precomputed_callbacks.hpp>
 
 #include <omp.h>
 
@@ -67,6 +85,111 @@ struct table_distance
 };
 
 typedef std::vector<IndexType> Idx;
+
+// random-access, NON-contiguous iterator adaptor: position p denotes origin[p * stride] (stride 3: every third entry of
+// a buffer; stride -2: every second entry, backwards).  Nothing but the random-access iterator requirements.
+struct strided_iter
+{
+    typedef std::random_access_iterator_tag iterator_category;
+    typedef IndexType value_type;
+    typedef std::ptrdiff_t difference_type;
+    typedef const IndexType* pointer;
+    typedef const IndexType& reference;
+    const IndexType* origin = nullptr;
+    difference_type stride = 1;
+    difference_type pos = 0;
+    strided_iter() = default;
+    strided_iter(const IndexType* o, difference_type s, difference_type p) : origin(o), stride(s), pos(p)
+    {
+    }
+    reference operator*() const
+    {
+        return origin[pos * stride];
+    }
+    pointer operator->() const
+    {
+        return origin + pos * stride;
+    }
+    reference operator[](difference_type k) const
+    {
+        return origin[(pos + k) * stride];
+    }
+    strided_iter& operator++()
+    {
+        ++pos;
+        return *this;
+    }
+    strided_iter operator++(int)
+    {
+        strided_iter t = *this;
+        ++pos;
+        return t;
+    }
+    strided_iter& operator--()
+    {
+        --pos;
+        return *this;
+    }
+    strided_iter operator--(int)
+    {
+        strided_iter t = *this;
+        --pos;
+        return t;
+    }
+    strided_iter& operator+=(difference_type k)
+    {
+        pos += k;
+        return *this;
+    }
+    strided_iter& operator-=(difference_type k)
+    {
+        pos -= k;
+        return *this;
+    }
+    friend strided_iter operator+(strided_iter a, difference_type k)
+    {
+        a.pos += k;
+        return a;
+    }
+    friend strided_iter operator+(difference_type k, strided_iter a)
+    {
+        a.pos += k;
+        return a;
+    }
+    friend strided_iter operator-(strided_iter a, difference_type k)
+    {
+        a.pos -= k;
+        return a;
+    }
+    friend difference_type operator-(const strided_iter& a, const strided_iter& b)
+    {
+        return a.pos - b.pos;
+    }
+    friend bool operator==(const strided_iter& a, const strided_iter& b)
+    {
+        return a.pos == b.pos;
+    }
+    friend bool operator!=(const strided_iter& a, const strided_iter& b)
+    {
+        return a.pos != b.pos;
+    }
+    friend bool operator<(const strided_iter& a, const strided_iter& b)
+    {
+        return a.pos < b.pos;
+    }
+    friend bool operator>(const strided_iter& a, const strided_iter& b)
+    {
+        return a.pos > b.pos;
+    }
+    friend bool operator<=(const strided_iter& a, const strided_iter& b)
+    {
+        return a.pos <= b.pos;
+    }
+    friend bool operator>=(const strided_iter& a, const strided_iter& b)
+    {
+        return a.pos >= b.pos;
+    }
+};
 
 static bool method_of(const std::string& s, DimensionReductionMethod& m)
 {
@@ -111,30 +234,29 @@ static TapkeeOutput embed_once(const DimensionReductionMethod& m, const std::str
     return tapkee::with(p).withKernel(kcb).withDistance(dcb).embedUsing(idx);
 }
 
-// the statements of the embed() bodies that build the matrix handed to eigendecomposition_via
-static bool solver_input(const std::string& meth, int kk, const DenseMatrix& T, Idx& idx, DenseSymmetricMatrix& B,
-                         DenseSymmetricMatrix* geo2 = nullptr)
+// the statements of the embed() bodies that build the matrix handed to eigendecomposition_via, on any range and any
+// pair of callbacks
+template <class It, class KCB, class DCB>
+static bool solver_input_on(const std::string& meth, int kk, It b, It e, KCB kcb, DCB dcb, DenseSymmetricMatrix& B,
+                            DenseSymmetricMatrix* geo2 = nullptr)
 {
     if (meth == "mds")
     {
-        table_distance dcb{&T};
-        B = tapkee_internal::compute_distance_matrix(idx.begin(), idx.end(), dcb);
+        B = tapkee_internal::compute_distance_matrix(b, e, dcb);
         tapkee_internal::centerMatrix(B);
         B.array() *= -0.5;
     }
     else if (meth == "kpca")
     {
-        table_kernel kcb{&T};
-        B = tapkee_internal::compute_centered_kernel_matrix(idx.begin(), idx.end(), kcb);
+        B = tapkee_internal::compute_centered_kernel_matrix(b, e, kcb);
     }
     else if (meth == "isomap")
     {
         // the statements of IsomapImplementation::embed()
-        table_distance dcb{&T};
-        tapkee_internal::PlainDistance<Idx::iterator, table_distance> pd(dcb);
+        tapkee_internal::PlainDistance<It, DCB> pd(dcb);
         tapkee_internal::Neighbors nb =
-            tapkee_internal::find_neighbors(Brute, idx.begin(), idx.end(), pd, static_cast<IndexType>(kk), true);
-        B = tapkee_internal::compute_shortest_distances_matrix(idx.begin(), idx.end(), nb, dcb);
+            tapkee_internal::find_neighbors(Brute, b, e, pd, static_cast<IndexType>(kk), true);
+        B = tapkee_internal::compute_shortest_distances_matrix(b, e, nb, dcb);
         B = B.array().square();
         B = (B + B.transpose()).eval() / 2.0;
         if (geo2)
@@ -145,6 +267,84 @@ static bool solver_input(const std::string& meth, int kk, const DenseMatrix& T, 
     else
         return false;
     return true;
+}
+
+static bool solver_input(const std::string& meth, int kk, const DenseMatrix& T, const Idx& idx, DenseSymmetricMatrix& B,
+                         DenseSymmetricMatrix* geo2 = nullptr)
+{
+    table_kernel kcb{&T};
+    table_distance dcb{&T};
+    return solver_input_on(meth, kk, idx.cbegin(), idx.cend(), kcb, dcb, B, geo2);
+}
+
+// WAVE 4: one request on the range [b,e) with the callbacks (kcb, dcb)
+template <class It, class KCB, class DCB>
+static void rng_run(const std::string& meth, const std::string& solver, unsigned seed, int d, int kk, It b, It e, KCB kcb,
+                    DCB dcb)
+{
+    const int n = static_cast<int>(e - b);
+    if (meth == "dm")
+    {
+        DenseSymmetricMatrix M = tapkee_internal::compute_distance_matrix(b, e, dcb);
+        print_matrix("d2", M);
+        tapkee_internal::centerMatrix(M);
+        M.array() *= -0.5;
+        print_matrix("mds", M);
+        return;
+    }
+    if (meth == "km")
+    {
+        DenseSymmetricMatrix M = tapkee_internal::compute_centered_kernel_matrix(b, e, kcb);
+        print_matrix("kpca", M);
+        return;
+    }
+    DimensionReductionMethod m = MultidimensionalScaling;
+    method_of(meth, m);
+    DenseSymmetricMatrix B, geo2;
+    solver_input_on(meth, kk, b, e, kcb, dcb, B, &geo2);
+    if (meth == "isomap")
+        print_matrix("geo2", geo2);
+    print_matrix("B", B);
+    if (solver == "randomized")
+        print_omega(seed, n, d);
+    std::srand(seed);
+    ParametersSet p = (method = m, num_neighbors = kk, neighbors_method = Brute, check_connectivity = true,
+                       target_dimension = d);
+    if (solver != "default")
+        p.add(eigen_method = solver_of(solver));
+    TapkeeOutput out = tapkee::with(p).withKernel(kcb).withDistance(dcb).embedRange(b, e);
+    print_matrix("emb", out.embedding);
+}
+
+// the (container, callback) pairs that are instantiated (each one is a full instantiation of tapkee::embed)
+enum CbKind
+{
+    CB_TABLE,
+    CB_PRECOMPUTED,
+    CB_EIGEN
+};
+template <class It>
+static void rng_with(CbKind cb, const std::string& meth, const std::string& solver, unsigned seed, int d, int kk, It b,
+                     It e, const DenseMatrix& P)
+{
+    if (cb == CB_TABLE)
+    {
+        table_kernel k{&P};
+        table_distance dc{&P};
+        rng_run(meth, solver, seed, d, kk, b, e, k, dc);
+    }
+    else if (cb == CB_PRECOMPUTED)
+    {
+        precomputed_kernel_callback k(P);
+        precomputed_distance_callback dc(P);
+        rng_run(meth, solver, seed, d, kk, b, e, k, dc);
+    }
+    else
+    {
+        eigen_kernel_callback k(P);
+        eigen_distance_callback dc(P);
+        rng_run(meth, solver, seed, d, kk, b, e, k, dc);
+    }
 }
 
 struct ParSet
@@ -329,6 +529,104 @@ int main()
                         print_matrix((pre + "emb" + std::to_string(i)).c_str(), s.E[slot]);
                     }
                 }
+            }
+            else if (cmd == "RNG")
+            {
+                std::string cont, cbs, meth, solver;
+                unsigned seed;
+                int n, d, kk, m, f;
+                is >> cont >> cbs >> meth >> solver >> seed >> n >> d >> kk >> m >> f;
+                DimensionReductionMethod mm = MultidimensionalScaling;
+                if (!is || n < 1 || n > 4096 || m < 1 || m > 4096 || f < 0 || f > 4096 ||
+                    !(meth == "dm" || meth == "km" || (method_of(meth, mm) && meth != "klle")))
+                {
+                    std::cout << "X " << k << " bad-input" << std::endl;
+                    return;
+                }
+                Idx ids(n);
+                for (int i = 0; i < n; i++)
+                {
+                    long v = -1;
+                    is >> v;
+                    if (!is || v < 0 || v >= m)
+                    {
+                        std::cout << "X " << k << " bad-input" << std::endl;
+                        return;
+                    }
+                    ids[i] = static_cast<IndexType>(v);
+                }
+                DenseMatrix P;
+                if (!read_matrix(is, f == 0 ? m : f, m, P))
+                {
+                    std::cout << "X " << k << " bad-input" << std::endl;
+                    return;
+                }
+                CbKind cb;
+                if (cbs == "table" && f == 0)
+                    cb = CB_TABLE;
+                else if (cbs == "precomputed" && f == 0)
+                    cb = CB_PRECOMPUTED;
+                else if (cbs == "eigen" && f > 0)
+                    cb = CB_EIGEN;
+                else
+                {
+                    std::cout << "X " << k << " bad-input" << std::endl;
+                    return;
+                }
+                // decoy ids: valid samples of the table, but not the ones the range denotes at that position
+                auto decoy = [m](std::size_t t) { return static_cast<IndexType>((7 * t + 3) % static_cast<std::size_t>(m)); };
+                if (cont == "vector" || cont == "vectormid")
+                {
+                    const std::size_t pre = (cont == "vector") ? 0 : 5, post = (cont == "vector") ? 0 : 4;
+                    Idx v(pre + n + post);
+                    for (std::size_t t = 0; t < v.size(); t++)
+                        v[t] = decoy(t);
+                    std::copy(ids.begin(), ids.end(), v.begin() + pre);
+                    rng_with(cb, meth, solver, seed, d, kk, v.cbegin() + pre, v.cbegin() + pre + n, P);
+                }
+                else if (cont == "deque" || cont == "dequemid")
+                {
+                    std::deque<IndexType> dq;
+                    std::size_t off = 0;
+                    if (cont == "deque")
+                        dq.assign(ids.begin(), ids.end());
+                    else
+                    {
+                        // a long deque of decoys; the denoted samples are placed across the first block boundary
+                        const std::size_t len = 2 * 512 / sizeof(IndexType) + 2 * n + 16;
+                        for (std::size_t t = 0; t < len; t++)
+                            dq.push_back(decoy(t));
+                        std::size_t boundary = 0;
+                        for (std::size_t t = 0; t + 1 < len && boundary == 0; t++)
+                            if (&dq[t] + 1 != &dq[t + 1])
+                                boundary = t + 1;
+                        const std::size_t before = static_cast<std::size_t>(n) / 2;
+                        off = boundary > before ? boundary - before : 0;
+                        for (int i = 0; i < n; i++)
+                            dq[off + i] = ids[i];
+                    }
+                    std::size_t breaks = 0;
+                    for (int i = 0; i + 1 < n; i++)
+                        if (&dq[off + i] + 1 != &dq[off + i + 1])
+                            breaks++;
+                    std::cout << "P dequebreaks " << breaks << std::endl;
+                    rng_with(cb, meth, solver, seed, d, kk, dq.cbegin() + off, dq.cbegin() + off + n, P);
+                }
+                else if (cont == "strided" || cont == "reversed")
+                {
+                    const std::ptrdiff_t stride = (cont == "strided") ? 3 : -2;
+                    const std::size_t step = static_cast<std::size_t>(stride < 0 ? -stride : stride);
+                    Idx buf(step * n + 3);
+                    for (std::size_t t = 0; t < buf.size(); t++)
+                        buf[t] = decoy(t);
+                    const std::size_t first = (stride > 0) ? 1 : step * (n - 1) + 1;
+                    for (int i = 0; i < n; i++)
+                        buf[first + stride * static_cast<std::ptrdiff_t>(i)] = ids[i];
+                    strided_iter b(buf.data() + first, stride, 0), e(buf.data() + first, stride, n);
+                    rng_with(cb, meth, solver, seed, d, kk, b, e, P);
+                }
+                else
+                    std::cout << "X " << k << " bad-input" << std::endl;
             }
             else if (cmd == "TRI")
             {
